@@ -221,3 +221,15 @@ package linker
 //@   loop 3 invariant hasEntryBit(c, sourceIndex, entryPointBit)
 //@   loop 3 invariant forall s uint32 :: old(hasEntryBit(c, s, entryPointBit)) ==> hasEntryBit(c, s, entryPointBit)
 //@   loop 3 invariant forall s uint32, b uint :: b != entryPointBit && b/8 < uint(len(c.graph.Files[s].EntryBits.entries)) ==> hasEntryBit(c, s, b) == old(hasEntryBit(c, s, b))
+
+// ----------------------------------------------------------------------------------------------
+// C15: import statements of a CommonJS-wrapped file that stay ESM imports are hoisted to the top level of the
+// chunk, so EVERY binding such a statement introduces (namespace, default, each named item; likewise for
+// export-star-as and export-from) must be registered as a top-level symbol with the renamer, or two wrapped
+// files importing under the same local name collide. (Coverage rule: each binding field reaches AddTopLevelSymbol.)
+//@ hashed hoisted-import-bindings C15: func=(*linkerContext).renameSymbolsInChunk ; in=linker ; sink=AddTopLevelSymbol:1 ; must=SImport.NamespaceRef>AddTopLevelSymbol,SImport.DefaultName>AddTopLevelSymbol,SImport.Items>AddTopLevelSymbol,SExportStar.NamespaceRef>AddTopLevelSymbol,SExportFrom.NamespaceRef>AddTopLevelSymbol,SExportFrom.Items>AddTopLevelSymbol
+
+// C10: an entry-point chunk must import, from the chunk that declares it, every symbol it re-exports. An export
+// is resolved to (file, ref); whether that ref is itself an import is recorded in the ImportsToBind table OF THAT
+// FILE, so the lookup that follows a re-export to its declaring symbol must read the resolved file's table.
+//@ flow follow-reexport-in-owning-file C10: func=(*linkerContext).computeCrossChunkDependencies ; in=linker ; site=lookup export.Ref ; mappath=c.graph.Files[export.SourceIndex].InputFile.Repr.Meta.ImportsToBind
